@@ -1,9 +1,22 @@
 //! C01: no byte stream can crash a terminal emulation (oracle: panic / abort / hang per character)
+//!
+//! Phases of a run: (1) seeded grammar streams, exhaustive short streams over the control alphabets, corner
+//! positions x own alphabet — each compared with the model and checked by the oracle, each with the
+//! invariant-triggered failing-input search of `term::run_case_ex`; (2) the exhaustive probe family
+//! (`probe::probe_plan`): position x own-alphabet prefix x every probe suffix, oracle only;
+//! (3) `--replay @search:<file>`: probe search from the prefixes of correspondence mismatches (hook for `check`).
+use crate::probe::*;
 use crate::term::*;
 use crate::util::*;
 
 pub fn worker(inp: &str, out: &std::path::Path) {
-    worker_loop(inp, out, |line, emit| run_case(line, 2000, emit));
+    worker_loop(inp, out, |line, emit| {
+        if line.starts_with("probe ") {
+            probe_group(line, emit)
+        } else {
+            run_case_ex(line, 2000, !no_probe(), emit)
+        }
+    });
 }
 
 pub fn sizes(rng: &mut Rng) -> (i32, i32) {
@@ -19,7 +32,20 @@ pub fn sizes(rng: &mut Rng) -> (i32, i32) {
 pub fn run(run: &mut Run, seed: u64, thorough: bool, replay: Option<&str>, corpus: &[String]) {
     let dir = std::path::PathBuf::from(std::env::var("VERIF_WORK").unwrap_or_else(|_| "work/C01".to_string()));
     std::fs::create_dir_all(&dir).unwrap();
+    if let Some(path) = replay.and_then(|r| r.strip_prefix("@search:")) {
+        // failing-input search from correspondence mismatches
+        let groups = search_groups(path, 20);
+        run.extra.push(("search_prefixes".into(), groups.len().to_string()));
+        for lines in run_probe_groups("c01", &dir, &groups, jobs(), 15) {
+            let (r, f) = report_probe_lines(run, &lines, c01_verdict);
+            run.evaluations += f;
+            run.count("search-group");
+            let _ = r;
+        }
+        return;
+    }
     let mut cases: Vec<String> = Vec::new();
+    let mut groups: Vec<String> = Vec::new();
     if let Some(r) = replay {
         cases.push(r.replace('_', " "));
     } else {
@@ -54,6 +80,13 @@ pub fn run(run: &mut Run, seed: u64, thorough: bool, replay: Option<&str>, corpu
             exhaustive(emu, 7, 4, &[], &alpha, depth, &mut cases);
             exhaustive(emu, 7, 4, &[lf(emu)], &alpha, depth, &mut cases);
         }
+        // every control of every emulation's own alphabet in the four corners of the screen, with and without
+        // scrollback: as ordinary cases (compared with the model) and as probe groups (followed by every probe suffix)
+        let (pc, pg) = if no_probe() { (vec![], vec![]) } else { probe_plan(thorough) };
+        run.extra.push(("corner_cases".into(), pc.len().to_string()));
+        run.extra.push(("probe_groups".into(), pg.len().to_string()));
+        cases.extend(pc);
+        groups = pg;
     }
     let results = run_in_workers("c01", &dir, &cases, 20);
     for (case, res) in cases.iter().zip(results.iter()) {
@@ -95,23 +128,32 @@ pub fn run(run: &mut Run, seed: u64, thorough: bool, replay: Option<&str>, corpu
                             }
                             run.nontrivial(fnv(case.bytes().map(|b| b as u64)));
                         }
+                        Some(&"Q") => {
+                            let (_, f) = report_probe_lines(run, std::slice::from_ref(l), c01_verdict);
+                            run.evaluations += f;
+                        }
                         _ => {}
                     }
                 }
             }
         }
     }
+    // the exhaustive probe family (oracle only; aborts and hangs are pinned stream by stream)
+    if !groups.is_empty() {
+        let (mut runs, mut fed) = (0u64, 0u64);
+        for (g, lines) in groups.iter().zip(run_probe_groups("c01", &dir, &groups, jobs(), 15).iter()) {
+            let (r, f) = report_probe_lines(run, lines, c01_verdict);
+            runs += r;
+            fed += f;
+            run.count(&format!("probe-emu:{}", g.split_whitespace().nth(1).unwrap_or("?")));
+        }
+        run.evaluations += fed;
+        run.extra.push(("probe_runs".into(), runs.to_string()));
+        run.extra.push(("probe_chars".into(), fed.to_string()));
+    }
     if run.samples.is_empty() {
         for c in cases.iter().take(3) {
             run.samples.push(c.chars().take(200).collect());
         }
-    }
-}
-
-fn emu_family(e: &str) -> &str {
-    if e.starts_with("ansi") {
-        "ansi"
-    } else {
-        e
     }
 }
